@@ -12,6 +12,7 @@
   checked end-to-end by the correspondence oracle (paired virtual/real runs) until those contracts are theorems.
 -/
 import Lc3V.Props.C11
+import Lc3V.Lemmas.RealRel
 namespace Lc3V.C12
 open Lc3V Sim SimM
 
@@ -50,7 +51,39 @@ theorem exception_handlers :
     C11.chkMsg (C11.vec 0x101) "\n--- Illegal opcode ---" (.trap 0x25) = true ∧
     C11.chkMsg (C11.vec 0x102) "\n--- Access violation ---" (.trap 0x25) = true := by decide +kernel
 
+/-- **one step**: a step that succeeds on the virtual-trap machine is the same step on the machine with real traps (same result,
+    same registers, PC, PSR, memory, devices, frames, observer, counter) -/
+theorem real_step_same (s s' : Sim) (hv : s.flags.realTraps = false) (h : Sim.step s = (.ok (), s')) :
+    Sim.step (RT.rt s) = (.ok (), RT.rt s') := by
+  have hr := RT.step_real_rel s hv
+  rw [h] at hr
+  obtain ⟨_, hrr⟩ := hr
+  rcases hrr with ⟨e, he⟩ | hrr
+  · cases he
+  · exact hrr
+
+/-- **whole executions**: as long as the virtual-trap machine has executed `n` steps without reaching HALT or an exception (or
+    any other error), the real-trap machine has executed the same `n` steps and is in the same state — enabling real traps
+    changes only what happens at HALT and at exceptions -/
+theorem real_prefix_same (n : Nat) (s s' : Sim) (hv : s.flags.realTraps = false) (h : RT.okSteps n s = some s') :
+    RT.okSteps n (RT.rt s) = some (RT.rt s') :=
+  (RT.okSteps_real n s s' hv h).1
+
+/-- the same for `run`, `run_with_limit`, `step_over`, `step_out`, `run_while`: a virtual-trap run that pauses (limit,
+    breakpoint, tripwire, MCR) rather than halting or failing pauses in the same state under real traps -/
+theorem real_run_same (tw : Tripwire) (fuel iter : Nat) (s s' : Sim) (p : Pause) (hv : s.flags.realTraps = false)
+    (h : runLoop tw fuel iter s = some (.ok p, s')) (hp : p ≠ .halt) :
+    runLoop tw fuel iter (RT.rt s) = some (.ok p, RT.rt s') := by
+  have hr := RT.runLoop_real tw fuel iter s hv
+  rw [h] at hr
+  obtain ⟨_, hrr⟩ := hr
+  rcases hrr with (hh | ⟨e, he⟩) | hrr
+  · injection hh with hh; exact absurd hh hp
+  · cases he
+  · exact hrr
+
 def obligations : List Lean.Name :=
-  [``lockstep, ``other_vectors_same, ``io_traps_not_virtual, ``virtual_breaks, ``exception_handlers]
+  [``lockstep, ``other_vectors_same, ``io_traps_not_virtual, ``virtual_breaks, ``exception_handlers,
+   ``RT.step_real_rel, ``RT.okSteps_real, ``RT.runLoop_real, ``real_step_same, ``real_prefix_same, ``real_run_same]
 
 end Lc3V.C12
